@@ -589,8 +589,12 @@ def harness(E, cfg):
         # entrywise non-negativity, exact also in replay (NNDSVD builds its entries from abs / clip / max: no rounding excuse);
         # symbolically under 'divisions defined', a NaN fails it in replay
         nonneg = (lambda e: E.ge(e, 0)) if E.symbolic else (lambda e: bool(float(e) >= 0))
+        # incremental core on purpose: it abstracts the (rational, root-laden) entries and settles these by case split + linear
+        # reasoning (W = If(W0 < eps, avg, W0) with avg >= 0 assumed needs nothing else); nlsat would unfold every definition
+        E.fresh_solver = False
         E.prove("W_nonneg", [nonneg(e) for e in np.asarray(W).ravel()])
         E.prove("H_nonneg", [nonneg(e) for e in np.asarray(H).ravel()])
+        E.fresh_solver = True
         if E.symbolic:
             import z3
 
